@@ -32,4 +32,6 @@
 #define M_addCol4       28   /* addCol(obj, lower, vector, upper) */
 #define M_removeRowsIdx 29   /* SoPlexBase::removeRowsReal/Rational(int perm[]) reached from the idx/range variants */
 #define M_removeColsIdx 30
+#define M_addRow_gmp    31   /* addRow(const mpq_t* lhs, values, indices, size, const mpq_t* rhs) */
+#define M_addCol_gmp    32
 #endif
